@@ -2145,6 +2145,12 @@ impl Element {
                             end_tag_end_pos..ps.position(),
                         );
                     }
+                } else {
+                    // the input ends inside the end tag
+                    ps.add_warning(
+                        ParseErrorKind::IncompleteTag,
+                        end_tag_end_pos..ps.position(),
+                    );
                 }
                 ps.next(); // '>'
                 let end_tag_location = (end_tag_start_location, end_tag_end_pos..ps.position());
